@@ -226,6 +226,10 @@ class Outcome:
     value: Any = None
 
 
+# (function qual, local name) -> line: reads of a local that no earlier statement on the interpreted path has bound
+UNBOUND_READS = {}
+
+
 class Interp:
     MAX_PATHS = 5000
     MAX_INLINE = 3
@@ -265,6 +269,7 @@ class Interp:
         self.assert_raises = assert_raises
         self.npaths = 0
         self.depth = 0
+        self._whole = False
         self._locals_cache = {}
         self._funcstack = [func] if func is not None else []
 
@@ -274,7 +279,11 @@ class Interp:
         path = path or Path()
         if env:
             path.env.update(env)
-        return self.exec_block(self.func.node.body, path)
+        self._whole = env is None
+        try:
+            return self.exec_block(self.func.node.body, path)
+        finally:
+            self._whole = False
 
     # ------------------------------------------------------------------ helpers
     def _cur(self):
@@ -314,11 +323,53 @@ class Interp:
         self._locals_cache[id(fi)] = names
         return names
 
+    def _unbound_candidates(self, fi: FuncInfo):
+        """locals of fi that must have been bound by an earlier statement when they are read: assigned locals minus
+        parameters, names (also) bound inside a loop body or by a loop header (a zero-iteration path is not evidence),
+        global / nonlocal names and nested class names"""
+        k = ("unbound", id(fi))
+        if k in self._locals_cache:
+            return self._locals_cache[k]
+        a = fi.node.args
+        params = {x.arg for x in a.posonlyargs + a.args + a.kwonlyargs} | ({a.vararg.arg} if a.vararg else set()) | ({a.kwarg.arg} if a.kwarg else set())
+        skip = set(params)
+
+        def visit(n, in_loop):
+            for c in ast.iter_child_nodes(n):
+                if isinstance(c, (FuncNode, ast.Lambda)):
+                    continue
+                if isinstance(c, ast.ClassDef):
+                    skip.add(c.name)
+                    continue
+                if isinstance(c, (ast.Global, ast.Nonlocal)):
+                    skip.update(c.names)
+                if isinstance(c, (ast.ListComp, ast.SetComp, ast.DictComp, ast.GeneratorExp)):
+                    for g in c.generators:
+                        for x in ast.walk(g.target):
+                            if isinstance(x, ast.Name):
+                                skip.add(x.id)
+                loop = in_loop or isinstance(c, (ast.For, ast.AsyncFor, ast.While))
+                if loop and isinstance(c, ast.Name) and isinstance(c.ctx, (ast.Store, ast.Del)):
+                    skip.add(c.id)
+                if loop and isinstance(c, ast.ExceptHandler) and c.name:
+                    skip.add(c.name)
+                if isinstance(c, ast.NamedExpr):
+                    skip.add(c.target.id)
+                visit(c, loop)
+
+        visit(fi.node, False)
+        out = self.locals_of(fi) - skip
+        self._locals_cache[k] = out
+        return out
+
     def lookup_name(self, name, path):
         key = ("sym", name)
         if key in path.env:
             return path.env[key]
         fi = self._cur()
+        if fi is not None and (self._whole or fi is not self.func) and name in self._unbound_candidates(fi):
+            UNBOUND_READS.setdefault((fi.qual, name), getattr(self, "_cur_lineno", 0))
+            path.ev("unbound-local", name)
         f = fi
         while f is not None:
             if name in self.locals_of(f):
@@ -329,6 +380,8 @@ class Interp:
             r = self.program.resolve(mod, name)
             if r is not None:
                 return ("glob", r)
+            if fi is not None and (self._whole or fi is not self.func) and name not in ("__class__", "__package__", "__name__", "__file__", "__doc__", "__spec__", "__builtins__", "__debug__"):
+                UNBOUND_READS.setdefault((fi.qual, name), getattr(self, "_cur_lineno", 0))
         return key
 
     def fresh(self, path):
@@ -361,6 +414,7 @@ class Interp:
         return [("value", path, ("const", node.value))]
 
     def e_Name(self, node, path):
+        self._cur_lineno = getattr(node, "lineno", 0)
         return [("value", path, self.lookup_name(node.id, path))]
 
     def e_Attribute(self, node, path):
